@@ -35,6 +35,22 @@ CLAIMED = {
   text="Deductive proof, function by function, on types/missing.py and the Missing validator: the metaclass call returns the cached instance and never creates a second one (two-path VC under the invariant `_instance in {None, singleton}`), __eq__ is identity with MISSING for every value, __bool__ is False, the three attribute hooks raise AttributeError on every path, is_missing/not_missing/when_missing and the validator decide by identity for every value; reconstruction (copy, deepcopy, pickle 0-5) is decided by walking CPython's copy/pickle dispatch over the hooks the class defines in the current tree and executing those hooks symbolically.",
   note="Trusted: T-COPY (transcription of CPython 3.12 copy.py/pickle.py/copyreg.py dispatch; validated natively by the replay harness on every violation), S8 dunder lookup on the type, type.__call__ creates a new instance. Containers/states holding MISSING rely on T-COPY mapping deepcopy/pickle over elements.",
   ref="DESIGN.md 4 (C20)"),
+ "C02": dict(
+  text="Deductive proof by symbolic execution of the real ScopeContext.__aenter__ + abstracted body + __aexit__ (and the sync pair, `with ctx.updated`, TaskGroupContext enter/exit) with the three context variables holding arbitrary bindings: on every path - each callee failing as its contract allows, a CancelledError arriving while the task group waits or while disposables enter/exit - the three variables are restored to their values before the block, a failed enter leaves nothing entered, and exit returns a falsy value (so the body's exception object propagates unchanged) unless a cleanup step itself raised.",
+  note="Trusted: T-CV (contextvars set/reset/token semantics, task-local), T-TG outcome classes of TaskGroup.__aexit__, S4, S8. Callee contracts: Disposables.__aenter__/__aexit__ (C08), StateContext.updated (C01), ScopeMetrics._finish/log/time never raise (C09, C19). The body is abstracted by 'leaves the three variables as it found them' (induction over nesting).",
+  ref="DESIGN.md 4 (C02), Appendix B.4"),
+ "C06": dict(
+  text="Deductive proof of the call shapes structured concurrency rests on, on every path of the real code: ctx.spawn / TaskGroupContext.run create the task through the *current* group's create_task inside a scope and detached on the loop outside (with the given function and arguments); the scope's task group is entered and current before disposables are entered and inside the block; ScopeContext.__aexit__ (and a failing __aenter__) awaits TaskGroup.__aexit__ on every exit path with the body's exception details unchanged; sync scopes and state updates never touch the group variable.",
+  note="Trusted: T-TG (TaskGroup.__aexit__ returns only when all members are done and aborts them when the body failed or the parent is cancelled), T-CV. 'Leaving always terminates' is T-TG plus tasks reacting to cancellation: assumed, not proved (liveness).",
+  ref="DESIGN.md 4 (C06)"),
+ "C07": dict(
+  text="Deductive proof: a CancelledError that arrives while the scope waits for its task group or while disposables are entered/exited is never converted into a normal return by ScopeContext/TaskGroupContext (every handler of the real code is executed on every outcome class of TaskGroup.__aexit__: only the body's own exception object is left to the with statement); ctx.check_cancellation raises CancelledError exactly when a current task exists and has pending cancellation requests; ctx.cancel requests cancellation of the current task and raises RuntimeError outside a task.",
+  note="Trusted: T-FUT (current task is never done; Task.cancelling() counts requests), T-TG, S4. That spawned tasks of a cancelled scope are cancelled too is T-TG applied to C06-P2: assumed.",
+  ref="DESIGN.md 4 (C07)"),
+ "C08": dict(
+  text="Deductive proof for any number of disposables (tuple of unknown length; each disposable's enter/exit outcome is an uninterpreted function of the disposable): _initialize maps None/State/iterable as specified and propagates a failing enter; __aenter__ starts exactly one _initialize per disposable in order and returns the in-order concatenation of the yielded state; __aexit__ hands every disposable exactly one __aexit__ with the given exception details under return_exceptions=True, returns only when no cleanup failed, raises the single error or a group holding every error, and no cleanup error vanishes; ScopeContext enters once before the body and exits once after it with the body's details on every path; ctx.scope wraps an iterable keeping every disposable in order. One clause is refuted and listed as a known finding (no rollback of entered disposables when entering fails): it is reported as KNOWN-FINDING and not counted as proved.",
+  note="Trusted: T-GATHER (every awaitable handed to gather is started; return_exceptions semantics), T-COLL (chain.from_iterable, list filter semantics), PEP 634 patterns. A cancellation delivered while the exits run may cancel not-yet-started exit coroutines (asyncio.gather): outside this property's quantifier.",
+  ref="DESIGN.md 4 (C08)"),
 }
 
 ALL = [f"C{i:02d}" for i in range(1, 21)]
